@@ -66,3 +66,6 @@ OBLIGATIONS = FT.fault_obligations('c06', 'C06', which=['down-path']) + [
 ]
 # the single-GET cases only make sense for the 'single' label
 OBLIGATIONS[-2]['cases'] = [('single', False), ('single', True)]
+
+from harness.nsrun import ns_fault_obligations, nsfaulted  # noqa: E402
+OBLIGATIONS += ns_fault_obligations('c06', 'C06', ['down-path'])
